@@ -127,6 +127,17 @@ def ex {α} (f : α → String) : Except Err α → String
   | .ok a => "ok " ++ f a
   | .error e => encErr e
 
+/-- measurement with one coin per observable (used only when that outcome is random) -/
+def measureK : State → List Pauli → List Bool → Except Err (State × List Int × List Bool)
+  | st, [], _ => .ok (st, [], [])
+  | st, o :: os, coins =>
+    match measure1 st o (coins.headD false) with
+    | .error e => .error e
+    | .ok (st', out, rnd) =>
+      match measureK st' os coins.tail with
+      | .error e => .error e
+      | .ok (st'', outs, rs) => .ok (st'', out :: outs, rnd :: rs)
+
 def decMaps (s : String) : Option (List CMap) :=
   if s == "-" then some [] else (s.splitOn "/").mapM decRows
 
@@ -189,6 +200,10 @@ def pureOp (w : List String) : Option String :=
       pure (ex (fun (x : State × List Int × Nat × List Bool) =>
         encState x.1 ++ " " ++ encInts x.2.1 ++ " " ++ toString x.2.2.1 ++ " " ++ toString x.2.2.2.length)
         (measure st obs coins))
+  | ["measurek", r, t, obs, coins] => do
+      let st ← decState r t; let obs ← decRows obs; let coins ← decBits coins
+      pure (ex (fun (x : State × List Int × List Bool) =>
+        encState x.1 ++ " " ++ encInts x.2.1 ++ " " ++ encBits x.2.2) (measureK st obs coins))
   | ["expect", r, t, obs] => do
       let st ← decState r t; let obs ← decRows obs
       pure (encInts (expect st obs))
